@@ -291,6 +291,33 @@ def run_abort(desc):
                 break
             if nontrivial and 0 < j < len(U):
                 out.nontrivial(('between', desc['tree'], desc['cfg'], j))
+        # ---- a file hook raises, on_error returns a value, and the consumer kills right after receiving that value ----------------
+        for j in range(1, n + 1):
+            if log_full[j - 1][0] not in ('vf', 'cf'):
+                continue
+            w = new()
+            w.raise_at = j
+            it = w.imatch()
+            got = []
+            for v_ in it:
+                got.append(v_)
+                if v_[0] == 'E':
+                    w.kill()
+                    break
+            rest = list(it)
+            out.evaluations += 1
+            errs = [x[1] for x in w.log if x[0] == 'err']
+            routed = [x[1] for x in w.log if x[0] in ('match', 'skip')]
+            if errs and errs[0] not in routed:
+                fail('a file whose hook raised is routed to neither on_match nor on_skip when the consumer kills after the error value', j=j,
+                     file=errs[0], rest=rest[:3])
+                break
+            if w.get_skipped() != len([x for x in w.log if x[0] == 'skip']):
+                fail('get_skipped() differs from the number of on_skip calls after a kill that follows an error value', j=j)
+                break
+            if len(rest) > 1:
+                fail('more than the file being processed is finished after a kill that follows an error value', j=j, rest=rest[:3])
+                break
         # ---- a hook raises at every position ---------------------------------------------------------
         for j in range(1, n + 1):
             w = new()
